@@ -410,6 +410,7 @@ func (a *FuncAn) callResult(v ssa.Value, call *ssa.Call, idx int, single bool) L
 	at := l.t[0].a
 	if !a.inited2[at] {
 		a.inited2[at] = true
+		a.countLemma(call, l)
 		if hasLo {
 			a.bounds(at, &lo, nil)
 		}
